@@ -5,6 +5,7 @@ func init() {
 		p := &Plan{Property: "C16"}
 		th := o.Tier == "thorough"
 		ns := []int{1, 2, 3}
+		bigBatch := false
 		addSample := func(name string, batched []string, outaxis []int) {
 			for _, n := range ns {
 				p.Jobs = append(p.Jobs, Job{Harness: "gonnx.H_C16", Case: map[string]interface{}{"sample": name, "batched": batched, "outaxis": outaxis, "n": n,
@@ -17,7 +18,11 @@ func init() {
 		addSample("gru", []string{"data_input:1,3,3:0", "init_hidden:1,1,5:1"}, []int{0, 1})
 		addSample("gru", []string{"data_input:1,1,3:0", "init_hidden:1,1,5:1"}, []int{0, 1})
 		addGraph := func(nodes []gnode, inits []string, outputs []string, batched []string, outaxis []int) {
-			for _, n := range ns {
+			batchSizes := ns
+			if bigBatch {
+				batchSizes = []int{5, 6}
+			}
+			for _, n := range batchSizes {
 				var inputs []string
 				for _, b := range batched {
 					inputs = append(inputs, b)
@@ -52,6 +57,15 @@ func init() {
 		one("Conv", "auto_pad=SAME_LOWER;strides=2", "x,k", []string{"k:1,1,3"}, "x:1,1,6:0", 0)
 		one("Conv", "auto_pad=SAME_UPPER;strides=2,3", "x,k,b", []string{"k:1,2,2,3", "b:1"}, "x:1,2,3,4:0", 0)
 		one("Conv", "pads=1,0,0,1;strides=2,1;dilations=1,2", "x,k", []string{"k:1,1,2,2"}, "x:1,1,3,4:0", 0)
+		// batches of 5 and 6 samples
+		bigBatch = true
+		one("Conv", "", "x,k,b", []string{"k:2,1,2,2", "b:2"}, "x:1,1,2,3:0", 0)
+		one("Conv", "strides=2", "x,k", []string{"k:1,1,2"}, "x:1,1,3:0", 0)
+		one("Gemm", "transB=1", "x,w,b", []string{"w:2,2", "b:2"}, "x:1,2:0", 0)
+		one("MatMul", "", "x,w", []string{"w:2,2"}, "x:1,1,2:0", 0)
+		one("Add", "", "x,w", []string{"w:2"}, "x:1,2:0", 0)
+		addGraph([]gnode{{"RNN", "x,W,R", "y,yh", "hidden_size=2"}}, []string{"W:1,2,2", "R:1,2,2"}, []string{"yh"}, []string{"x:2,1,2:1"}, []int{1})
+		bigBatch = false
 		for _, op := range []string{"Add", "Mul", "Sub", "Div"} {
 			one(op, "", "x,w", []string{"w:2"}, "x:1,2:0", 0)
 			one(op, "", "w,x", []string{"w:2,1"}, "x:1,2,2:0", 0)
